@@ -18,7 +18,12 @@ fi
 # never be run by hand afterwards)
 trap 'git -C /repo checkout -- . ; git -C /repo clean -fdq -e target -e Cargo.lock >/dev/null 2>&1; ./check build >/dev/null 2>&1' EXIT
 for id in "$@"; do
-  out=$(./check "$id" "${TIER:-quick}" ${EXTRA:-} 2>&1); code=$?
+  if [ "${NOMIRI:-0}" = 1 ] && [ "$id" = C14 ]; then
+    # development aid: C14 without the Miri layer (build + simulator only)
+    out=$(./check build 2>&1 && VERIF_TIER="${TIER:-quick}" sim/target/release/t2n-sim run C14 "${TIER:-quick}" ${EXTRA:-} 2>&1); code=$?
+  else
+    out=$(./check "$id" "${TIER:-quick}" ${EXTRA:-} 2>&1); code=$?
+  fi
   v=$(echo "$out" | grep -m1 '^VIOLATION' || true)
   d=$(echo "$out" | grep -m1 '^violation detail' | cut -c1-400 || true)
   echo "RESULT patch=$patch check=$id exit=$code $v"
